@@ -21,23 +21,51 @@ def _def_truth(d: Node) -> Optional[bool]:
     return None
 
 
+def _def_nonnone(d: Node) -> Optional[bool]:
+    """Is the value assigned at d known to be None (False) / known not to be None (True)?"""
+    v = getattr(d.ast, "value", None)
+    if v is None:
+        return None
+    if isinstance(v, ast.Constant):
+        return v.value is not None
+    if isinstance(v, (ast.Tuple, ast.List, ast.Dict, ast.Set, ast.JoinedStr, ast.ListComp, ast.SetComp, ast.DictComp)):
+        return True
+    return None
+
+
 def flag_edge_justified(g: CFG, n: Node, lab, justified: EdgePred, start: Optional[int], depth: int = 0) -> bool:
     """A test on a plain local flag:  `ok = a and b ... ; if ok:`.  The edge (ok, lab) is as good as a
     justified edge when every definition of the flag that can make this edge feasible is itself
     reachable only across justified edges (definitions with the opposite known truthiness make the
     edge infeasible and are ignored)."""
-    if depth > 2 or n.kind != "test" or not isinstance(n.ast, ast.Name) or lab not in ("T", "F"):
+    if depth > 2 or n.kind != "test" or lab not in ("T", "F"):
         return False
-    defs = reaching_defs(g, n.id, n.ast.id)
+    none_mode = False
+    e0 = n.ast
+    if isinstance(e0, ast.Compare) and len(e0.ops) == 1 and isinstance(e0.ops[0], (ast.Is, ast.IsNot)) and isinstance(e0.left, ast.Name) and isinstance(e0.comparators[0], ast.Constant) and e0.comparators[0].value is None:
+        # sentinel flag:  x = <value> | None ... if x is not None:
+        none_mode = True
+        want_value = (lab == "T") == isinstance(e0.ops[0], ast.IsNot)
+        fname = e0.left.id
+    elif isinstance(e0, ast.Name):
+        fname = e0.id
+    else:
+        return False
+    defs = reaching_defs(g, n.id, fname)
     if not defs:
         return False
     feasible = []
     for d in defs:
         if d.kind != "stmt" or not isinstance(d.ast, (ast.Assign, ast.AnnAssign)):
             return False
-        tr = _def_truth(d)
-        if tr is not None and tr != (lab == "T"):
-            continue  # this definition cannot take the edge
+        if none_mode:
+            nn = _def_nonnone(d)
+            if nn is not None and nn != want_value:
+                continue
+        else:
+            tr = _def_truth(d)
+            if tr is not None and tr != (lab == "T"):
+                continue  # this definition cannot take the edge
         feasible.append(d)
     if not feasible:
         return True  # edge infeasible
@@ -46,7 +74,7 @@ def flag_edge_justified(g: CFG, n: Node, lab, justified: EdgePred, start: Option
         if d.id not in plain:
             return False  # defined before the region under analysis: nothing is known about it
         v = getattr(d.ast, "value", None)
-        if v is not None and not isinstance(v, ast.Constant):
+        if v is not None and not isinstance(v, ast.Constant) and not none_mode:
             # `flag = E` followed by `if flag:` is the test `if E:` in disguise
             vv, ll = v, lab
             while isinstance(vv, ast.UnaryOp) and isinstance(vv.op, ast.Not):
@@ -96,7 +124,7 @@ def cut(
             return False
         if justified(n, lab):
             return True
-        if n.kind == "test" and isinstance(n.ast, ast.Name):
+        if n.kind == "test" and isinstance(n.ast, (ast.Name, ast.Compare)):
             k = (n.id, lab)
             if k not in memo:
                 memo[k] = False  # guard against recursion through the same node
@@ -565,7 +593,7 @@ def with_flags(g: CFG, justified: EdgePred, start: Optional[int] = None) -> Edge
             return False
         if justified(n, lab):
             return True
-        if n.kind == "test" and isinstance(n.ast, ast.Name):
+        if n.kind == "test" and isinstance(n.ast, (ast.Name, ast.Compare)):
             k = (n.id, lab)
             if k not in memo:
                 memo[k] = False
